@@ -28,7 +28,10 @@ RULE = ("one run = 1-2 probe actors with drawn restart limit {0,1,3,None}, resta
         "points); non-trivial = a failure or a stop/cancel happened while something was in flight; distinct = abstract digest "
         "of enter/exit/controller-op sequence; model states = (running, in_restart_delay, last outcome) visited"
         " Also: up to 3 actors, optionally constructed with equal names; `async with` left normally or because the"
-        " body raised.")
+        " body raised."
+        " A waiter may give up (its wait()/await is cancelled); a run cancelled although nobody stopped or"
+        " cancelled the actor, and a deadlock of a controller call, are violations; errors of tasks that ended"
+        " unnoticed must still be surfaced.")
 QUICK_RUNS = 6000
 THOROUGH_RUNS = 400_000
 EXPECT_PROBES = ["stop_during_restart_delay", "stop_during_run", "stop_before_start", "stop_after_completion",
